@@ -103,6 +103,25 @@ add("C20", "exploration",
     "quiver coordinates and the ASCII export are compared with the reference adjacency.",
     "With cell values crossing pixels and the top/left frame are not judged; ticks, labels, colours out of scope.", "5/C20")
 
+add("C05", "exploration",
+    "bounded-exhaustive enumeration of (dataset, storage format / threshold, transport) triples and of collection cases, each written and read back on the real implementation",
+    "5 generators x grids 2-6 x n in {1,2,3,5} and every solution-length-class assignment over {1,2,3,full} for n<=3 (n<=4 thorough) plus 13 n=5 patterns, x 3 metadata modes x "
+    "{full, minimal, minimal_soln_cat, serialize() under 5 thresholds} x {in-memory, ZANJ file}; collections of 1-3 members incl. empty ones x thresholds x 3 config wirings; every "
+    "case compared maze by maze, cfg and collected-metadata counter with a pre-serialisation snapshot.",
+    "Grids <= 6, n <= 5; partial per-maze metadata, threshold -1 and grids > 127 out of bound; the documented in-place collect_generation_meta provenance entry is tolerated.", "5/C05")
+add("C15", "exploration",
+    "bounded-exhaustive enumeration of the real all_instances / get_all_tokenizers output (element families, a 72-slice partition of the whole 5,878,656-tokenizer space, stars/boxes, "
+    "un-sliced pass in thorough) compared as a configuration multiset with an explicit cartesian-product reference",
+    "quick: full-space structure (all 5,878,656 configurations exactly once, by slices) + ~47k distinct configurations for names / hashes / equal copies / legacy / serialize-load / ZANJ; "
+    "thorough: names, hashes, equal-copy and legacy on all 5,878,656, un-sliced get_all_tokenizers, 527k serialize/load, 5.7k ZANJ files; hashes recomputed in 5 PYTHONHASHSEED children.",
+    "save/load not full-space; configurations read via vars(); cross-process uniqueness via 64-bit digests.", "5/C15")
+add("C18", "exploration",
+    "bounded-exhaustive enumeration of the configuration field lattice (full cross product / Hamming ball), all one-field-different pairs and 5 PYTHONHASHSEED child interpreters "
+    "against a literal reference (sha256 of the JSON text, file-name composition, type-strict field comparison)",
+    "Every config of the stated lattice (25 286 thorough / 2 362 quick, + 156 collection configs) is serialized, hashed, named and reloaded directly and through JSON text; every "
+    "single-field pair and all configs pairwise have distinct hashes; hashes and file names identical in 5 interpreters with different hash seeds.",
+    "Representative values per field; tuples nested inside filter args only judged modulo list/tuple on the JSON path; n_mazes excluded from ==/diff by the library.", "5/C18")
+
 PLANNED = {}
 
 
